@@ -99,6 +99,53 @@ fn head_adt<'tcx>(tcx: TyCtxt<'tcx>, mut t: Ty<'tcx>) -> Option<String> {
     }
 }
 
+
+fn relocs_json<'tcx>(tcx: TyCtxt<'tcx>, alloc_id: mir::interpret::AllocId, off: usize, len: usize, depth: usize) -> String {
+    // pointers stored inside [off, off+len) of the allocation, with the bytes they point to
+    let alloc = match tcx.try_get_global_alloc(alloc_id) {
+        Some(mir::interpret::GlobalAlloc::Memory(a)) => a,
+        Some(mir::interpret::GlobalAlloc::Static(did)) => match tcx.eval_static_initializer(did) {
+            Ok(a) => a,
+            Err(_) => return "[]".into(),
+        },
+        _ => return "[]".into(),
+    };
+    let inner = alloc.inner();
+    let mut out = Vec::new();
+    for (o, prov) in inner.provenance().ptrs().iter() {
+        let o = o.bytes() as usize;
+        if o < off || o >= off + len {
+            continue;
+        }
+        let target = prov.alloc_id();
+        // the pointer value (offset into the target) is stored in the bytes
+        let raw = inner.inspect_with_uninit_and_ptr_outside_interpreter(o..o + 8);
+        let mut toff = 0usize;
+        for (i, b) in raw.iter().enumerate() {
+            toff |= (*b as usize) << (8 * i);
+        }
+        match tcx.try_get_global_alloc(target) {
+            Some(mir::interpret::GlobalAlloc::Memory(t)) => {
+                let ti = t.inner();
+                let end = ti.len().min(toff + 4096);
+                if toff <= end {
+                    let bytes = ti.inspect_with_uninit_and_ptr_outside_interpreter(toff..end);
+                    let nested = if depth < 3 { relocs_json(tcx, target, toff, end - toff, depth + 1) } else { "[]".into() };
+                    out.push(format!("{{\"off\":{},\"bytes\":\"{}\",\"relocs\":{}}}", o - off, hex(bytes), nested));
+                }
+            }
+            Some(mir::interpret::GlobalAlloc::Function { instance }) => {
+                out.push(format!("{{\"off\":{},\"fn\":{}}}", o - off, js(&qpath(tcx, instance.def_id()))));
+            }
+            Some(mir::interpret::GlobalAlloc::Static(did)) => {
+                out.push(format!("{{\"off\":{},\"static\":{}}}", o - off, js(&qpath(tcx, did))));
+            }
+            _ => {}
+        }
+    }
+    format!("[{}]", out.join(","))
+}
+
 struct Cx<'a, 'tcx> {
     tcx: TyCtxt<'tcx>,
     body: &'a Body<'tcx>,
@@ -230,6 +277,9 @@ impl<'a, 'tcx> Cx<'a, 'tcx> {
                         if len <= 1 << 16 {
                             if let Some((b, hp)) = self.read_alloc_bytes(alloc_id, off.bytes() as usize, len) {
                                 let _ = write!(s, ",\"bytes\":\"{}\",\"has_ptr\":{}", hex(&b), hp);
+                                if hp {
+                                    let _ = write!(s, ",\"relocs\":{}", relocs_json(tcx, alloc_id, off.bytes() as usize, len, 0));
+                                }
                             }
                         }
                     }
@@ -267,6 +317,9 @@ impl<'a, 'tcx> Cx<'a, 'tcx> {
                     if len <= 1 << 16 {
                         if let Some((b, hp)) = self.read_alloc_bytes(alloc_id, offset.bytes() as usize, len) {
                             let _ = write!(s, ",\"bytes\":\"{}\",\"has_ptr\":{}", hex(&b), hp);
+                            if hp {
+                                let _ = write!(s, ",\"relocs\":{}", relocs_json(tcx, alloc_id, offset.bytes() as usize, len, 0));
+                            }
                         }
                     }
                 }
